@@ -355,6 +355,8 @@ func scenariosC09() []c09scenario {
 	return []c09scenario{
 		{name: "fresh-join", victim: lcSpec{joinAfter: 1500 * time.Millisecond}},
 		{name: "join-with-observe", victim: lcSpec{joinAfter: 1500 * time.Millisecond, observe: 2 * time.Second}},
+		// heartbeat period shorter than join-after: a process restarted while JOINING heartbeats as PENDING before it joins again
+		{name: "join-with-observe-fast-heartbeat", victim: lcSpec{joinAfter: 3 * time.Second, observe: 2 * time.Second, heartbeat: time.Second}},
 		{name: "join-with-tokens-file", victim: lcSpec{joinAfter: 1500 * time.Millisecond, tokensFile: tokensPath}},
 		{name: "restart-from-tokens-file", victim: lcSpec{joinAfter: 1500 * time.Millisecond, tokensFile: tokensPath}, fileStart: []uint32{11, 12}},
 		{name: "leave-unregister", victim: lcSpec{unregister: true}, stopAt: 6500 * time.Millisecond},
